@@ -34,6 +34,7 @@ inductive Msg (N : Nat)
 | rvResp (term : Nat) (src dst : Fin N) (granted : Bool)
 | ae     (term : Nat) (src : Fin N) (prev prevTerm : Nat) (ents : Log) (commit : Nat)
 | aeResp (term : Nat) (src dst : Fin N) (ok : Bool) (index : Nat)
+| hb     (term : Nat) (src dst : Fin N) (commit : Nat)
 
 structure Sys (N : Nat) where
   nodes : Fin N → NodeSt N
@@ -120,6 +121,21 @@ def doAdvanceCommit (s : Sys N) (i : Fin N) (k : Nat) : Sys N :=
 def doRestart (s : Sys N) (i : Fin N) : Sys N :=
   { s with nodes := upd s.nodes i { (s.nodes i) with role := .follower } }
 
+/-- etcd's `handleAppendEntries` short-cut: `m.Index < committed` ⇒ answer with the commit index (a non-reject MsgAppResp) -/
+def doAckCommitted (s : Sys N) (j src : Fin N) (t : Nat) : Sys N :=
+  { s with
+    nodes := upd s.nodes j { (s.nodes j) with role := .follower }
+    msgs := fun m => s.msgs m ∨ m = .aeResp t j src true (s.nodes j).commit
+    acks := fun t' j' n => s.acks t' j' n ∨ (t' = t ∧ j' = j ∧ n = (s.nodes j).commit) }
+
+/-- `bcastHeartbeat`: the leader advertises `min(match[to], committed)` -/
+def doSendHB (s : Sys N) (i dst : Fin N) (c : Nat) : Sys N :=
+  { s with msgs := fun m => s.msgs m ∨ m = .hb (s.nodes i).term i dst c }
+
+/-- `handleHeartbeat`: `commitTo(m.Commit)` -/
+def doHandleHB (s : Sys N) (j : Fin N) (c : Nat) : Sys N :=
+  { s with nodes := upd s.nodes j { (s.nodes j) with role := .follower, commit := max (s.nodes j).commit c } }
+
 inductive Step : Sys N → Sys N → Prop
 | timeout (s : Sys N) (i : Fin N) (h : (s.nodes i).role ≠ .leader) : Step s (doTimeout s i)
 | updateTerm (s : Sys N) (i : Fin N) (t : Nat) (ht : (s.nodes i).term < t) : Step s (doUpdateTerm s i t)
@@ -139,6 +155,13 @@ inductive Step : Sys N → Sys N → Prop
     (hk : (s.nodes i).commit < k ∧ k ≤ (s.nodes i).log.length) (hterm : termAt (s.nodes i).log k = (s.nodes i).term)
     (hq : N < 2 * Q.card) (hQ : ∀ j ∈ Q, ∃ n, k ≤ n ∧ s.acks (s.nodes i).term j n) : Step s (doAdvanceCommit s i k)
 | restart (s : Sys N) (i : Fin N) : Step s (doRestart s i)
+| ackCommitted (s : Sys N) (j src : Fin N) (t prev pt : Nat) (ents : Log) (cm : Nat)
+    (hm : s.msgs (.ae t src prev pt ents cm)) (ht : (s.nodes j).term = t) (hnl : (s.nodes j).role ≠ .leader)
+    (hlt : prev < (s.nodes j).commit) : Step s (doAckCommitted s j src t)
+| sendHB (s : Sys N) (i dst : Fin N) (c : Nat) (hl : (s.nodes i).role = .leader) (hc : c ≤ (s.nodes i).commit)
+    (hack : c = 0 ∨ ∃ n, c ≤ n ∧ s.acks (s.nodes i).term dst n) : Step s (doSendHB s i dst c)
+| handleHB (s : Sys N) (j src : Fin N) (t c : Nat) (hm : s.msgs (.hb t src j c)) (ht : (s.nodes j).term = t)
+    (hnl : (s.nodes j).role ≠ .leader) : Step s (doHandleHB s j c)
 
 def PrefixOK (llog : Nat → Log) (l : Log) : Prop :=
   ∀ k, 1 ≤ k → k ≤ l.length → l.take k = (llog (termAt l k)).take k
@@ -747,6 +770,81 @@ theorem inv0_handleAE {s : Sys N} (h : Inv0 s) (j src : Fin N) (t prev pt : Nat)
     · exact h.ae_ok _ _ _ _ _ _ hm'
     · cases hm'
 
+/-- node j steps to follower (term, vote, log unchanged), messages gain nothing the invariant speaks about -/
+theorem inv0_to_follower {s : Sys N} (h : Inv0 s) (j : Fin N) (x : NodeSt N)
+    (hterm : x.term = (s.nodes j).term) (hvote : x.vote = (s.nodes j).vote) (hlog : x.log = (s.nodes j).log)
+    (hrole : x.role = .follower ∨ x.role = (s.nodes j).role)
+    (msgs' : Msg N → Prop) (hm1 : ∀ t a b, msgs' (.rvResp t a b true) → s.msgs (.rvResp t a b true))
+    (hm2 : ∀ t src prev pt ents cm, msgs' (.ae t src prev pt ents cm) → s.msgs (.ae t src prev pt ents cm))
+    (acks' : Nat → Fin N → Nat → Prop) (cmt' : Nat → Nat → Prop) :
+    Inv0 { s with nodes := upd s.nodes j x, msgs := msgs', acks := acks', cmt := cmt' } := by
+  have hT : ∀ k, (upd s.nodes j x k).term = (s.nodes k).term := by
+    intro k; by_cases hk : k = j
+    · subst hk; simp [hterm]
+    · simp only [upd_other _ _ hk]
+  have hV : ∀ k, (upd s.nodes j x k).vote = (s.nodes k).vote := by
+    intro k; by_cases hk : k = j
+    · subst hk; simp [hvote]
+    · simp only [upd_other _ _ hk]
+  have hL : ∀ k, (upd s.nodes j x k).log = (s.nodes k).log := by
+    intro k; by_cases hk : k = j
+    · subst hk; simp [hlog]
+    · simp only [upd_other _ _ hk]
+  have hR : ∀ k r, r ≠ .follower → (upd s.nodes j x k).role = r → (s.nodes k).role = r := by
+    intro k r hr hk
+    by_cases hkj : k = j
+    · subst hkj
+      simp only [upd_same] at hk
+      rcases hrole with h1 | h1
+      · rw [h1] at hk; exact absurd hk.symm hr
+      · rw [← h1]; exact hk
+    · simpa only [upd_other _ _ hkj] using hk
+  refine ⟨?_, ?_, ?_, h.votes_fun, h.ldr_quorum, ?_, ?_, h.llog_none, ?_, ?_, h.p_llog, ?_⟩
+  · intro t k c hv; rw [hT, hV]; exact h.vote_durable t k c hv
+  · intro t a b hm; exact h.resp_voted t a b (hm1 t a b hm)
+  · intro k hk
+    rw [hT]
+    cases hr : (upd s.nodes j x k).role with
+    | follower => exact absurd hr hk
+    | candidate => exact h.cand_self k (by rw [hR k .candidate (by simp) hr]; simp)
+    | leader => exact h.cand_self k (by rw [hR k .leader (by simp) hr]; simp)
+  · intro k hk
+    rw [hT]; exact h.ldr_role k (hR k .leader (by simp) hk)
+  · intro t k hk
+    rw [hT]
+    refine ⟨(h.ldr_term t k hk).1, fun e hc => ?_⟩
+    exact (h.ldr_term t k hk).2 e (hR k .candidate (by simp) hc)
+  · intro k hk
+    rw [hL, hT]; exact h.ldr_log k (hR k .leader (by simp) hk)
+  · intro k; rw [hL]; exact h.p_nodes k
+  · intro t src prev pt ents cm hm; exact h.ae_ok t src prev pt ents cm (hm2 _ _ _ _ _ _ hm)
+
+theorem inv0_ackCommitted {s : Sys N} (h : Inv0 s) (j src : Fin N) (t : Nat) : Inv0 (doAckCommitted s j src t) := by
+  have := inv0_to_follower h j { (s.nodes j) with role := .follower } rfl rfl rfl (Or.inl rfl)
+    (fun m => s.msgs m ∨ m = .aeResp t j src true (s.nodes j).commit)
+    (by intro t' a b hm; rcases hm with hm | hm; exact hm; cases hm)
+    (by intro t' a b c d e hm; rcases hm with hm | hm; exact hm; cases hm)
+    (fun t' j' n => s.acks t' j' n ∨ (t' = t ∧ j' = j ∧ n = (s.nodes j).commit)) s.cmt
+  simpa [doAckCommitted] using this
+
+theorem inv0_sendHB {s : Sys N} (h : Inv0 s) (i dst : Fin N) (c : Nat) : Inv0 (doSendHB s i dst c) := by
+  unfold doSendHB
+  refine ⟨h.vote_durable, ?_, h.cand_self, h.votes_fun, h.ldr_quorum, h.ldr_role, h.ldr_term, h.llog_none,
+    h.ldr_log, h.p_nodes, h.p_llog, ?_⟩
+  · intro t j c' hm
+    rcases hm with hm | hm
+    · exact h.resp_voted t j c' hm
+    · cases hm
+  · intro t src prev pt ents cm hm
+    rcases hm with hm | hm
+    · exact h.ae_ok t src prev pt ents cm hm
+    · cases hm
+
+theorem inv0_handleHB {s : Sys N} (h : Inv0 s) (j : Fin N) (c : Nat) : Inv0 (doHandleHB s j c) := by
+  have := inv0_to_follower h j { (s.nodes j) with role := .follower, commit := max (s.nodes j).commit c } rfl rfl rfl
+    (Or.inl rfl) s.msgs (fun _ _ _ h => h) (fun _ _ _ _ _ _ h => h) s.acks s.cmt
+  simpa [doHandleHB] using this
+
 theorem inv0_step {s s' : Sys N} (h : Inv0 s) (st : Step s s') : Inv0 s' := by
   cases st with
   | timeout i hr => exact inv0_timeout h i hr
@@ -758,6 +856,9 @@ theorem inv0_step {s s' : Sys N} (h : Inv0 s) (st : Step s s') : Inv0 s' := by
   | handleAE j src t prev pt ents cm hm ht hnl hmatch => exact inv0_handleAE h j src t prev pt ents cm hm ht hnl hmatch
   | advanceCommit i k Q hl hk hterm hq hQ => exact inv0_advanceCommit h i k
   | restart i => exact inv0_restart h i
+  | ackCommitted j src t prev pt ents cm hm ht hnl hlt => exact inv0_ackCommitted h j src t
+  | sendHB i dst c hl hc hack => exact inv0_sendHB h i dst c
+  | handleHB j src t c hm ht hnl => exact inv0_handleHB h j c
 
 /-! ## bookkeeping invariants -/
 structure Inv1 (s : Sys N) : Prop where
@@ -1263,17 +1364,6 @@ theorem inv1_handleAE {s : Sys N} (h0 : Inv0 s) (h : Inv1 s) (j src : Fin N) (t 
   · intro t' y c hv
     rw [hT]; exact h.vote_cand t' y c hv
 
-theorem inv1_step {s s' : Sys N} (h0 : Inv0 s) (h : Inv1 s) (st : Step s s') : Inv1 s' := by
-  cases st with
-  | timeout i hr => exact inv1_timeout h0 h i
-  | updateTerm i t ht => exact inv1_updateTerm h i t ht
-  | grant j c t li lt hm ht hv hu => exact inv1_grant h j c t li lt hm
-  | becomeLeader i Q hq hc hQ => exact inv1_becomeLeader h0 h i Q hq hc hQ
-  | clientReq i v hl => exact inv1_clientReq h0 h i v hl
-  | sendAE i prev cnt hl hp => exact inv1_sendAE h i prev cnt
-  | handleAE j src t prev pt ents cm hm ht hnl hmatch => exact inv1_handleAE h0 h j src t prev pt ents cm hm ht hnl hmatch
-  | advanceCommit i k Q hl hk hterm hq hQ => exact inv1_advanceCommit h i k
-  | restart i => exact inv1_restart h i
 
 /-! ## leader completeness: Good / Bad, and the invariants AL, AV, EQ -/
 
